@@ -123,6 +123,9 @@ def run_variant(case, canonical):
     spec = SPECS[name]
     if canonical:
         return spec.run({k: v for k, v in case.items() if k not in ("enc", "junk")})
+    if spec.kind == "batch" and case.get("junk", "none") != "none" and name in UNUSED_Y:
+        # the reference call has the same documented-unused arguments: junk there too
+        case = dict(case, _ref_junk=[junk(case["junk"], -1), junk(case["junk"], -2)])
     det, data = spec.start(case)
     rows = [dict(spec.observe(det), step=-1)] if spec.kind == "batch" else []
     for i, item in enumerate(data):
